@@ -542,6 +542,35 @@ func c14Run(c *engine.Ctx) {
 			}
 		}
 	}
+	// three and four polylines in one multi-line: every chain A = (p0 p1), B = (p1 p2) starting
+	// where A ends, C = (q0 q1) anywhere on the 3x3 grid (touching, crossing, apart, zero length),
+	// in the orders A B C, C A B, A C B, and with a fourth member that starts where C ends
+	var g3c []ref.P2
+	for x := 0; x < 3; x++ {
+		for y := 0; y < 3; y++ {
+			g3c = append(g3c, ref.P2{X: float64(x), Y: float64(y)})
+		}
+	}
+	c.Parallel(81, func(i int) {
+		p0, p1 := g3c[i/9], g3c[i%9]
+		for _, p2 := range g3c {
+			for _, q0 := range g3c {
+				for _, q1 := range g3c {
+					if p0 == p1 && p1 == p2 && q0 == q1 {
+						continue // no length at all
+					}
+					off := offsets[(i+int(q0.X))%3]
+					l := layouts[(i+int(q1.Y))%4]
+					a, b, cc := ringF([]ref.P2{p0, p1}, off), ringF([]ref.P2{p1, p2}, off), ringF([]ref.P2{q0, q1}, off)
+					d := ringF([]ref.P2{q1, p0, p2}, off)
+					for _, rs := range [][][]ref.F{{a, b, cc}, {cc, a, b}, {a, cc, b}, {a, b, cc, d}} {
+						c.Count("chained_multi_lines", 1)
+						c14Exec(c, c14Case{Mode: "lines", Layout: l, Rings: rs})
+					}
+				}
+			}
+		}
+	})
 	// very large rings (beyond any block size a divided sum might use): the zig-zag tower of C11
 	// with 4103, 20003 (thorough 66003) coordinates, both directions, two start vertices; as a
 	// ring (direction, signed area), as a polygon, and as a polygon with a unit-square hole
